@@ -23,7 +23,7 @@ CHECKS = {
         text="For every well-formed glob up to the bound (TLC-enumerated), multi-glob annotations and seeded long globs, "
              "TLC decides Narrow(g) <= L(compiled matcher) <= Wide(g) for ALL paths by reachability over the automata "
              "product, and separately judges the real matcher's answers on all short and seeded longer paths, through "
-             "the API and through REUSE.toml + `reuse lint --json`.",
+             "the API and through REUSE.toml + `reuse lint --json`. Every AnnotationsItem.matches() call made by the repository's own test-suite is recorded (pytest plugin) and judged by the same two readings.",
         note="The unbounded result holds for the automaton items parsed from AnnotationsItem._paths_regex.pattern; that "
              "the items mean what Python's re means (anchoring, DOTALL) is covered by the bounded direct route only. "
              "If the pattern cannot be parsed the check degrades to the bounded route and says so in the evidence.",
